@@ -187,7 +187,7 @@ theorem sdec_enc (env : Env) (hE : EnvOk env) :
       rw [henc] at hr ⊢
       obtain ⟨h1, h2⟩ := hr.split
       simp only [length_leBytes] at h2
-      simp only [sdec, sdecRecord, hn, sreadU32_reads s _ hlen h1]
+      simp only [sdec, sdecRecord, hn, sreadU32_reads s _ hlen h1, Facts.msgLimitExtra, Nat.add_zero]
       -- the limited reader is installed
       have h3 : Reads { (s.consume 4) with limits := ((encFields fs).length + 1) :: (s.consume 4).limits }
           (encFields fs ++ [0]) := by
